@@ -23,6 +23,7 @@ class Panic(Exception):
 
 INT_RANGE = {"i8": (-(1 << 7), (1 << 7) - 1), "i16": (-(1 << 15), (1 << 15) - 1), "i32": (-(1 << 31), (1 << 31) - 1),
              "i64": (-(1 << 63), (1 << 63) - 1), "isize": (-(1 << 63), (1 << 63) - 1),
+             "u128": (0, (1 << 128) - 1), "i128": (-(1 << 127), (1 << 127) - 1),
              "u8": (0, (1 << 8) - 1), "u16": (0, (1 << 16) - 1), "u32": (0, (1 << 32) - 1), "u64": (0, (1 << 64) - 1), "usize": (0, (1 << 64) - 1)}
 
 
@@ -121,6 +122,28 @@ class Model:
             if op in ("Shl", "Shr"):
                 return (a << b) if op == "Shl" else (a >> b)
             raise Shape("operator %s in `%s`" % (op, show(e)))
+        if k == "agg" and isinstance(e[1], tuple) and e[1] and e[1][0] == "adt":
+            # an enum / struct value: ("enum", variant index, variant name, fields)
+            return ("enum", e[1][2], e[1][3], tuple(self.ev(x, args) for x in e[2]))
+        if k == "agg" and (e[1] == "tuple" or (isinstance(e[1], tuple) and e[1] and e[1][0] == "tuple")):
+            return ("enum", 0, "tuple", tuple(self.ev(x, args) for x in e[2]))
+        if k == "discr":
+            v = self.ev(e[1], args)
+            if isinstance(v, tuple) and v and v[0] == "enum":
+                return v[1]
+            return v
+        if k == "ref":
+            return self.ev(e[1], args)
+        if k == "proj" and not (isinstance(e[1], tuple) and e[1] and e[1][0] == "bin"):
+            v = self.ev(e[1], args)
+            for q in e[2]:
+                if q == "*" or (isinstance(q, (tuple, list)) and q and q[0] == "as"):
+                    continue
+                if isinstance(q, int) and isinstance(v, tuple) and v and v[0] == "enum" and q < len(v[3]):
+                    v = v[3][q]
+                    continue
+                raise Shape("projection %r of `%s`" % (q, show(e)))
+            return v
         if k == "proj" and tuple(e[2]) == (0,) and isinstance(e[1], tuple) and e[1][0] == "bin":
             return self.ev(e[1], args)            # the value half of a checked operation
         if k == "proj" and e[2] == (1,) and isinstance(e[1], tuple) and e[1][0] == "bin":
@@ -184,6 +207,14 @@ class Model:
                 return int(v > 0 and v & (v - 1) == 0)
             if n in ("from", "into", "as_u32", "as_i32", "as_usize") and len(e[2]) == 1:
                 return self.ev(e[2][0], args)
+            if n in ("is_some", "is_none", "is_ok", "is_err") and len(e[2]) == 1:
+                v = self.ev(e[2][0], args)
+                if isinstance(v, tuple) and v and v[0] == "enum":
+                    return int(v[2] == {"is_some": "Some", "is_none": "None", "is_ok": "Ok", "is_err": "Err"}[n])
+                raise Shape("%s of a value that is not an enum" % n)
+            if n in ("eq", "ne") and len(e[2]) == 2:
+                a, b = self.ev(e[2][0], args), self.ev(e[2][1], args)
+                return int((a == b) == (n == "eq"))
             if n in _ASCII and len(e[2]) == 1:
                 # u8 / char classification of the standard library, by its documented definition
                 x = e[2][0]
